@@ -8,8 +8,9 @@
    at the end of the file, each proved by reflexivity):
      lists lv p c        some entry (p, cs) of lv has c in cs          (p lists c / leaf p owns row c)
      wf t                every level has pairwise different keys       (true of any Python dict)
-     inner_nodup t       no child list of a non-leaf level repeats a name
-                         (NOT enforced by validate_taxonomy_tree: finding F3)
+     inner_nodup t       no child list of a non-leaf level repeats a name (enforced by
+                         validate_taxonomy_tree since the repair of finding F3, hence true of
+                         every accepted tree: c10_validate_sound; it is no hypothesis any more)
      path_ok t li x l    l = [(li-1, p1); (li-2, p2); ...; (0, p_li)] with every p_j a node of level j
                          that lists the previous element (x first)
      squash li l         l without its entry of level li, the levels above li renumbered down by one
@@ -22,32 +23,50 @@ Open Scope Z_scope.
 (* ====================================================================== the validator *)
 
 (* accepted => below the top every node has exactly one parent, every listed child exists,
-   no row belongs to two leaves (nor twice to one) *)
+   no child list repeats a name, no row belongs to two leaves (nor twice to one) *)
 Theorem c10_validate_sound : forall t, validate t = true ->
   t <> [] /\
   (forall k, (S k < length t)%nat ->
      (forall c, In c (nodes (nth (S k) t [])) ->
         exists p, lists (nth k t []) p c /\ forall p', lists (nth k t []) p' c -> p' = p) /\
-     (forall p c, lists (nth k t []) p c -> In c (nodes (nth (S k) t [])))) /\
+     (forall p c, lists (nth k t []) p c -> In c (nodes (nth (S k) t []))) /\
+     (forall p cs, In (p, cs) (nth k t []) -> NoDup cs)) /\
   NoDup (leaf_rows t) /\
-  (forall l l' r, lists (leaf_level t) l r -> lists (leaf_level t) l' r -> l = l').
+  (forall l l' r, lists (leaf_level t) l r -> lists (leaf_level t) l' r -> l = l') /\
+  inner_nodup t.
 Proof. exact validate_sound. Qed.
 Print Assumptions c10_validate_sound.
 
-(* the verdict is exactly "strict tree": soundness and completeness in one equivalence *)
+(* the verdict is exactly "strict tree": soundness and completeness in one equivalence.
+   For any list of levels: the child lists of a level, laid end to end, repeat no name ... *)
 Theorem c10_validate_exact : forall t,
   validate t = true <->
   t <> [] /\
   (forall k, (S k < length t)%nat ->
      (forall c, In c (nodes (nth (S k) t [])) -> exists p, lists (nth k t []) p c) /\
      (forall p c, lists (nth k t []) p c -> In c (nodes (nth (S k) t []))) /\
-     (forall p p' c, lists (nth k t []) p c -> lists (nth k t []) p' c -> p = p')) /\
+     (forall p p' c, lists (nth k t []) p c -> lists (nth k t []) p' c -> p = p') /\
+     NoDup (concat (map snd (nth k t [])))) /\
   NoDup (leaf_rows t).
-Proof. exact validate_iff. Qed.
+Proof. exact validate_exact. Qed.
 Print Assumptions c10_validate_exact.
 
+(* ... and for Python dicts (pairwise different keys) that is: one parent per child and no child
+   twice in one list *)
+Theorem c10_validate_exact_dict : forall t, wf t ->
+  (validate t = true <->
+   t <> [] /\
+   (forall k, (S k < length t)%nat ->
+      (forall c, In c (nodes (nth (S k) t [])) -> exists p, lists (nth k t []) p c) /\
+      (forall p c, lists (nth k t []) p c -> In c (nodes (nth (S k) t []))) /\
+      (forall p p' c, lists (nth k t []) p c -> lists (nth k t []) p' c -> p = p') /\
+      (forall p cs, In (p, cs) (nth k t []) -> NoDup cs)) /\
+   NoDup (leaf_rows t)).
+Proof. exact validate_exact_dict. Qed.
+Print Assumptions c10_validate_exact_dict.
+
 (* every defect is rejected: orphan child, dangling child, second parent, row shared by two
-   leaves, row repeated inside a leaf *)
+   leaves, row repeated inside a leaf, child repeated inside a child list *)
 Theorem c10_validate_complete : forall t,
   ((exists k c, (S k < length t)%nat /\ In c (nodes (nth (S k) t [])) /\ forall p, ~ lists (nth k t []) p c)
      -> validate t = false) /\
@@ -57,7 +76,8 @@ Theorem c10_validate_complete : forall t,
      -> validate t = false) /\
   ((exists l l' r, lists (leaf_level t) l r /\ lists (leaf_level t) l' r /\ l <> l')
      -> validate t = false) /\
-  ((exists l rs, In (l, rs) (leaf_level t) /\ ~ NoDup rs) -> validate t = false).
+  ((exists l rs, In (l, rs) (leaf_level t) /\ ~ NoDup rs) -> validate t = false) /\
+  ((exists k p cs, (S k < length t)%nat /\ In (p, cs) (nth k t []) /\ ~ NoDup cs) -> validate t = false).
 Proof. exact validate_complete. Qed.
 Print Assumptions c10_validate_complete.
 
@@ -74,20 +94,16 @@ Theorem c10_mutants_rejected : forall t,
      validate (replace_nth (S k) (add_node (nth (S k) t []) c cs) t) = false) /\
   (* shared row: a row that some leaf owns is appended to a leaf (another one, or the same) *)
   (forall l l' r, t <> [] -> lists (leaf_level t) l r -> In l' (nodes (leaf_level t)) ->
-     validate (replace_nth (length t - 1) (add_child (leaf_level t) l' r) t) = false).
+     validate (replace_nth (length t - 1) (add_child (leaf_level t) l' r) t) = false) /\
+  (* duplicate child (finding F3, repaired): a child that p lists is listed under p once more *)
+  (forall k p c, (S k < length t)%nat -> lists (nth k t []) p c ->
+     validate (replace_nth k (add_child (nth k t []) p c) t) = false).
 Proof. exact mutants_rejected. Qed.
 Print Assumptions c10_mutants_rejected.
 
-(* F3, in general: repeating a listed child never changes the verdict of the validator ... *)
-Theorem c10_dup_child_accepted : forall t k p c,
-  validate t = true -> (S k < length t)%nat -> lists (nth k t []) p c ->
-  validate (replace_nth k (add_child (nth k t []) p c) t) = true.
-Proof. exact dup_child_accepted. Qed.
-Print Assumptions c10_dup_child_accepted.
-
-(* ... and two more things it lets through: an inner node without children, an empty level *)
+(* two things the validator still lets through (documented, not repaired): an inner node without
+   children, an empty level *)
 Theorem c10_validator_gaps :
-  (validate f3_tree = true /\ ~ inner_nodup f3_tree) /\
   (validate childless_tree = true /\ children_of (nth 0 childless_tree []) 1 = []) /\
   (validate empty_level_tree = true /\ nth 1 empty_level_tree [(0, [])] = []).
 Proof. exact validator_gaps. Qed.
@@ -138,24 +154,20 @@ Print Assumptions c10_parent_child_inverse.
 
 (* ====================================================================== leaf lists *)
 
-(* as_leaves[level k][x] = leaves_of t k x.
-   Full statement (property C10): for every accepted tree the leaf lists of a node's children
-   are pairwise disjoint, repetition free, and their union is the node's leaf list.
-   That is REFUTED for the unchanged validator (c10_leaves_partition_refuted, F3).  Proved:
-   unconditionally the multiset-union and disjointness-between-nodes parts; the
-   no-repetition / partition parts under `inner_nodup t`, the condition the validator omits. *)
+(* as_leaves[level k][x] = leaves_of t k x.  For every accepted tree the leaf lists of a node's
+   children are pairwise disjoint, repetition free, and their union is the node's leaf list; the
+   leaf lists of one level partition the leaf set *)
 Theorem c10_leaves_partition : forall t, validate t = true -> wf t ->
   (forall k x, (S k < length t)%nat ->
      Permutation (leaves_of t k x) (flat_map (leaves_of t (S k)) (children_of (nth k t []) x))) /\
+  (forall k x, (S k < length t)%nat ->
+     NoDup (flat_map (leaves_of t (S k)) (children_of (nth k t []) x))) /\
+  (forall k x, NoDup (leaves_of t k x)) /\
   (forall k x x' l, In l (leaves_of t k x) -> In l (leaves_of t k x') -> x = x') /\
   (forall k, (k < length t)%nat ->
-     nth k (as_leaves t) [] = map (fun x => (x, leaves_of t k x)) (nodes (nth k t []))) /\
-  (inner_nodup t ->
-     (forall k x, NoDup (leaves_of t k x)) /\
-     (forall k x, (S k < length t)%nat ->
-        NoDup (flat_map (leaves_of t (S k)) (children_of (nth k t []) x))) /\
-     (forall k, (k < length t)%nat ->
-        Permutation (flat_map (leaves_of t k) (nodes (nth k t []))) (nodes (leaf_level t)))).
+     Permutation (flat_map (leaves_of t k) (nodes (nth k t []))) (nodes (leaf_level t))) /\
+  (forall k, (k < length t)%nat ->
+     nth k (as_leaves t) [] = map (fun x => (x, leaves_of t k x)) (nodes (nth k t []))).
 Proof. exact leaves_partition_thm. Qed.
 Print Assumptions c10_leaves_partition.
 
@@ -167,20 +179,13 @@ Theorem c10_leaves_by_ancestor : forall t, validate t = true -> wf t ->
 Proof. exact leaves_of_ancestor. Qed.
 Print Assumptions c10_leaves_by_ancestor.
 
-Theorem c10_leaves_partition_refuted : exists t x,
-  validate t = true /\ Forall (fun lv => NoDup (nodes lv)) t /\ ~ NoDup (leaves_of t 0 x).
-Proof. exact leaves_partition_refuted. Qed.
-Print Assumptions c10_leaves_partition_refuted.
-
 (* ====================================================================== leaf pairs *)
 
-(* Full statement (property C10): for every accepted tree and every parent, the pairs are
-   listed once each and are exactly the name-ordered pairs of leaves under two different
-   children of the parent.  REFUTED for the unchanged validator (c10_leaf_pairs_refuted, F3:
-   {"A": {"a": ["x","x","y"]}} yields the pair (x,x) and lists (x,y) twice).  Proved under
-   `inner_nodup t`, for every parent including the root (None) and leaf-level "parents". *)
+(* for every accepted tree and every parent -- the root (None), inner nodes, leaf-level
+   "parents" -- the pairs are listed once each and are exactly the name-ordered pairs of leaves
+   under two different children of the parent *)
 Theorem c10_leaf_pairs_exact : forall t parent,
-  validate t = true -> wf t -> inner_nodup t ->
+  validate t = true -> wf t ->
   (forall li x, parent = Some (li, x) -> (li < length t)%nat) ->
   NoDup (leaf_pairs t parent) /\
   forall a b,
@@ -191,20 +196,13 @@ Theorem c10_leaf_pairs_exact : forall t parent,
 Proof. exact leaf_pairs_exact_all. Qed.
 Print Assumptions c10_leaf_pairs_exact.
 
-(* F3: the validator accepts a child listed twice; the leaf pairs then contain a leaf paired
-   with itself and a pair listed twice *)
-Theorem c10_leaf_pairs_refuted : exists t p,
-  validate t = true /\ Forall (fun lv => NoDup (nodes lv)) t /\
-  (exists a, In (a, a) (leaf_pairs t p)) /\ ~ NoDup (leaf_pairs t p).
-Proof. exact leaf_pairs_refuted. Qed.
-Print Assumptions c10_leaf_pairs_refuted.
-
 (* ====================================================================== transformations *)
 
 (* drop_level of any level but the leaf level of an accepted tree: never raises, the result is
    accepted (closure), has one level less, the same leaf level (leaf set AND rows), the same
-   nodes at every remaining level, and every node's ancestors are its old ancestors without the
-   dropped level -- as a list (squash) and level by level (ancestor_at) *)
+   nodes at every remaining level, every node's ancestors are its old ancestors without the
+   dropped level -- as a list (squash) and level by level (ancestor_at) -- and no merged child
+   list repeats a name *)
 Theorem c10_drop_preserves : forall t li, validate t = true -> wf t -> (S li < length t)%nat ->
   exists t', drop_level t li = TOk t' /\
     validate t' = true /\ wf t' /\ length t' = (length t - 1)%nat /\
@@ -212,7 +210,7 @@ Theorem c10_drop_preserves : forall t li, validate t = true -> wf t -> (S li < l
     (forall k, nodes (nth k t' []) = nodes (nth (up_level li k) t [])) /\
     (forall j x, ancestors t' j x = squash li (ancestors t (up_level li j) x)) /\
     (forall j x k, ancestor_at t' j x k = ancestor_at t (up_level li j) x (up_level li k)) /\
-    (inner_nodup t -> inner_nodup t').
+    inner_nodup t'.
 Proof. exact drop_preserves. Qed.
 Print Assumptions c10_drop_preserves.
 
@@ -232,15 +230,13 @@ Theorem c10_drop_many_preserves : forall lis t, validate t = true -> wf t -> dro
     leaf_level t' = leaf_level t /\ flatten t' = flatten t /\
     (forall k, nodes (nth k t' []) = nodes (nth (up_levels lis k) t [])) /\
     (forall j x k, ancestor_at t' j x k = ancestor_at t (up_levels lis j) x (up_levels lis k)) /\
-    (inner_nodup t -> inner_nodup t').
+    inner_nodup t'.
 Proof. exact drop_levels_preserve. Qed.
 Print Assumptions c10_drop_many_preserves.
 
-(* drop_leaf_level: the level above becomes the leaf level and inherits the rows of its former
-   children.  Needs the child lists of that level to be repetition free: otherwise the
-   constructor rejects the result (c10_drop_leaf_refuted, another face of F3) *)
+(* drop_leaf_level of an accepted tree never raises: the level above becomes the leaf level and
+   inherits the rows of its former children (no row twice: the child lists repeat no name) *)
 Theorem c10_drop_leaf_preserves : forall t, validate t = true -> wf t -> (2 <= length t)%nat ->
-  child_lists_nodup (nth (length t - 2) t []) ->
   exists t', drop_leaf_level t = TOk t' /\
     validate t' = true /\ wf t' /\ length t' = (length t - 1)%nat /\
     (forall k, (k < length t - 1)%nat -> nodes (nth k t' []) = nodes (nth k t [])) /\
@@ -249,12 +245,6 @@ Theorem c10_drop_leaf_preserves : forall t, validate t = true -> wf t -> (2 <= l
                flat_map (children_of (leaf_level t)) (children_of (nth (length t - 2) t []) x)).
 Proof. exact drop_leaf_preserves. Qed.
 Print Assumptions c10_drop_leaf_preserves.
-
-Theorem c10_drop_leaf_refuted : exists t,
-  validate t = true /\ Forall (fun lv => NoDup (nodes lv)) t /\ (2 <= length t)%nat /\
-  drop_leaf_level t = TErr E_INVALID.
-Proof. exact drop_leaf_refuted. Qed.
-Print Assumptions c10_drop_leaf_refuted.
 
 (* the descendant leaves of every remaining node survive any sequence of drops: a node of the
    reduced tree has the same leaves below it as it had in the original tree *)
@@ -331,10 +321,9 @@ Definition ex3 : tree :=
     [(10, [21; 20]); (12, [23; 24]); (11, [22])];
     [(20, [0]); (21, [2; 1]); (22, []); (23, [3]); (24, [4])] ].
 
-Example c10_ex_hyps : validate ex3 = true /\ wf ex3 /\ inner_nodup ex3 /\ drops_ok (length ex3) [1%nat; 0%nat].
+Example c10_ex_hyps : validate ex3 = true /\ wf ex3 /\ drops_ok (length ex3) [1%nat; 0%nat].
 Proof.
-  split; [vm_compute; reflexivity|]. split; [apply wf_small; reflexivity|].
-  split; [apply inner_nodup_small; reflexivity | cbn; lia].
+  split; [vm_compute; reflexivity|]. split; [apply wf_small; reflexivity | cbn; lia].
 Qed.
 Example c10_ex_queries :
   ancestors ex3 2 21 = [(1%nat, 10); (0%nat, 0)] /\ ancestor_at ex3 2 23 0 = Some 1 /\
@@ -363,14 +352,18 @@ Proof.
   - intros k a Hk. destruct k as [|[|[|k]]]; cbn [nth]; intros E; inversion E; subst; try reflexivity. lia.
   - split; [reflexivity|]. eexists. split; vm_compute; reflexivity.
 Qed.
-(* a mutant of each rejected class, and the accepted duplicate child, on ex3 *)
+(* a mutant of each rejected class on ex3 (the duplicate child was accepted before the repair of F3),
+   and the F3 witnesses themselves: well-formed dicts, refused *)
 Example c10_ex_mutants :
   validate (replace_nth 0 (add_child (nth 0 ex3 []) 1 99) ex3) = false /\      (* dangling *)
   validate (replace_nth 0 (add_child (nth 0 ex3 []) 1 10) ex3) = false /\      (* second parent *)
   validate (replace_nth 1 (add_node (nth 1 ex3 []) 13 []) ex3) = false /\      (* orphan *)
   validate (replace_nth 2 (add_child (leaf_level ex3) 22 3) ex3) = false /\    (* shared row *)
-  validate (replace_nth 0 (add_child (nth 0 ex3 []) 0 10) ex3) = true.         (* duplicate child: F3 *)
+  validate (replace_nth 0 (add_child (nth 0 ex3 []) 0 10) ex3) = false.        (* duplicate child: F3 *)
 Proof. vm_compute. repeat split. Qed.
+Example c10_ex_f3_rejected :
+  validate f3_tree = false /\ validate f3_tree_rows = false /\ wf f3_tree /\ wf f3_tree_rows.
+Proof. exact f3_rejected. Qed.
 (* label columns: four cells of a 3-level taxonomy; a fifth cell giving label 10 a second parent *)
 Definition ex_records : list (list Z) := [[0; 10; 20]; [0; 10; 21]; [1; 12; 23]; [0; 10; 20]].
 Example c10_ex_labels :
@@ -421,6 +414,7 @@ Example c10_def_mutations : forall lv p c x cs,
 Proof. intros. split; reflexivity. Qed.
 Example c10_def_witnesses :
   f3_tree = [[(0, [1; 1; 2])]; [(1, []); (2, [])]] /\
+  f3_tree_rows = [[(0, [1; 1; 2])]; [(1, [7]); (2, [8])]] /\
   childless_tree = [[(0, [2]); (1, [])]; [(2, [5])]] /\
   empty_level_tree = [[(0, [])]; []].
 Proof. repeat split. Qed.
